@@ -9,9 +9,9 @@
 EXTENDS Doc
 
 Routes == {"ctor_str", "ctor_path", "ctor_file", "static_parse", "instance_parse",
-           "parse_file_str", "parse_file_path", "parse_file_file", "ctor_file_utf16", "parse_file_file_utf16"}
+           "parse_file_str", "parse_file_path", "parse_file_file", "ctor_file_utf16", "parse_file_file_utf16", "instance_reused"}
 \* PyDBML.parse_file(file) has no option parameters
-AcceptsOptions(route) == route \in {"ctor_str", "ctor_path", "ctor_file", "static_parse", "instance_parse", "ctor_file_utf16"}
+AcceptsOptions(route) == route \in {"ctor_str", "ctor_path", "ctor_file", "static_parse", "instance_parse", "ctor_file_utf16", "instance_reused"}
 
 \* sources the constructor must refuse
 BadSources == {"bytes", "int", "list", "StringIO", "float", "tuple",
